@@ -6,6 +6,7 @@
 package main
 
 import (
+	"bytes"
 	"errors"
 	"fmt"
 	"os"
@@ -29,6 +30,7 @@ func main() {
 	seed, _ := strconv.ParseInt(os.Args[2], 10, 64)
 	size, _ := strconv.Atoi(os.Args[3])
 	fnerr := false
+	opWrite := false
 	for _, a := range os.Args[4:] {
 		switch {
 		case strings.HasPrefix(a, "fsize="):
@@ -41,9 +43,23 @@ func main() {
 			}
 		case a == "fnerr":
 			fnerr = true
+		case a == "op=write":
+			opWrite = true
 		}
 	}
 	newData := payload.Make("new", seed, size)
+	if opWrite {
+		// one lockedfile.Write instead of a Transform
+		os.Stat("/VERIF_MARK_BEGIN")
+		err := lockedfile.Write(file, bytes.NewReader(newData), 0o666)
+		os.Stat("/VERIF_MARK_END")
+		if err != nil {
+			fmt.Printf("TERR saw=-1 %v\n", err)
+			return
+		}
+		fmt.Printf("TOK saw=-1\n")
+		return
+	}
 	os.Stat("/VERIF_MARK_BEGIN")
 	sawLen := -1
 	err := lockedfile.Transform(file, func(old []byte) ([]byte, error) {
